@@ -745,6 +745,23 @@ class Expect:
             base = None  # implicit int handled by callers
         return quals, storage, funcspec, align, base
 
+    def atomic(self, quals, base, deriv):
+        """_Atomic(T) D  ==  D applied to the _Atomic-qualified T (C11 6.7.2.4):
+        resolves the ('atomic', item) placeholder of split_spec."""
+        while isinstance(base, tuple) and base and base[0] == "atomic":
+            tn = base[1][1]
+            iq, _s, _f, _a, ib = self.split_spec(tn[1], tn)
+            ideriv = list(tn[2])
+            if ideriv:
+                assert ideriv[0][0] == "ptr", "model: _Atomic(T) with array/function T is not valid C"
+                ideriv[0] = ("ptr", list(ideriv[0][1]) + ["_Atomic"])
+                quals = list(quals) + list(iq)
+            else:
+                quals = list(quals) + list(iq) + ["_Atomic"]
+            deriv = list(deriv) + ideriv
+            base = ib
+        return list(quals), base, list(deriv)
+
     def member(self, m):
         if m[0] == "decl":
             return self.declaration(m, member=True)
@@ -805,15 +822,17 @@ class Expect:
         if base is None:
             base = self.N("IdentifierType", p, ("names", ["int"]))
         name = d[1]
+        quals, base, deriv = self.atomic(quals, base, d[2])
         if name is None:
-            ty = self.chain(d[2], None, quals, base, p, None)
+            ty = self.chain(deriv, None, quals, base, p, None)
             return self.N("Typename", p, ("name", None), ("quals", list(quals)), ("align", None), ("type", ty))
-        ty = self.chain(d[2], name, quals, base, p, d)
+        ty = self.chain(deriv, name, quals, base, p, d)
         return self.N("Decl", p, ("name", name), ("quals", list(quals)), ("align", align), ("storage", storage), ("funcspec", funcspec), ("type", ty), ("init", None), ("bitsize", None))
 
     def typename(self, tn):
         quals, storage, funcspec, align, base = self.split_spec(tn[1], tn)
-        ty = self.chain(tn[2], None, quals, base, tn, None)
+        quals, base, deriv = self.atomic(quals, base, tn[2])
+        ty = self.chain(deriv, None, quals, base, tn, None)
         return self.N("Typename", tn, ("name", None), ("quals", list(quals)), ("align", None), ("type", ty))
 
     def init(self, init):
@@ -841,22 +860,8 @@ class Expect:
             b = base
             if b is None:
                 b = self.N("IdentifierType", d, ("names", ["int"]))
-            if isinstance(b, tuple) and b and b[0] == "atomic":
-                # _Atomic(T) D  ==  D applied to the _Atomic-qualified T
-                tn = b[1][1]
-                iq, _s, _f, _a, ib = self.split_spec(tn[1], tn)
-                ideriv = list(tn[2])
-                if ideriv:
-                    assert ideriv[0][0] == "ptr", "model: _Atomic(T) with array/function T is not valid C"
-                    ideriv[0] = ("ptr", list(ideriv[0][1]) + ["_Atomic"])
-                    dq = list(quals) + list(iq)
-                else:
-                    dq = list(quals) + list(iq) + ["_Atomic"]
-                ty = self.chain(list(deriv) + ideriv, name, dq, ib, d, dc)
-                quals_here = dq
-            else:
-                ty = self.chain(deriv, name, quals, b, d, dc)
-                quals_here = quals
+            quals_here, b, deriv = self.atomic(quals, b, deriv)
+            ty = self.chain(deriv, name, quals_here, b, d, dc)
             if "typedef" in storage:
                 out.append(self.N("Typedef", d, ("name", name), ("quals", list(quals_here)), ("storage", storage), ("type", ty), exact=id(dc)))
             else:
@@ -954,7 +959,8 @@ class Expect:
             quals, storage, funcspec, align, base = self.split_spec(spec, x)
             if base is None:
                 base = self.N("IdentifierType", x, ("names", ["int"]))
-            ty = self.chain(d[2], d[1], quals, base, x, d)
+            quals, base, fderiv = self.atomic(quals, base, d[2])
+            ty = self.chain(fderiv, d[1], quals, base, x, d)
             decl = self.N("Decl", x, ("name", d[1]), ("quals", list(quals)), ("align", align), ("storage", storage), ("funcspec", funcspec), ("type", ty), ("init", None), ("bitsize", None), exact=id(d))
             pd = None
             if knr is not None:
